@@ -1,4 +1,7 @@
 import TorchDataVerif.Proofs.MPMapLive
+import TorchDataVerif.Proofs.MPIterF
+import TorchDataVerif.Proofs.MPStep
+import TorchDataVerif.Proofs.MPIterLive
 /-!
 # MP, map-style: consequences of the invariants, in the form the property theorems use
 -/
@@ -100,5 +103,74 @@ theorem prefix_eq_of_length {α : Type} (a b l : List α) (ha : a <+: l) (hb : b
   obtain ⟨y, hy⟩ := hb
   have := hx.trans hy.symm
   exact List.append_inj_left this h
+
+section Iter
+
+variable (c : Cfg) (hv : c.ValidI) (hit : c.iterable = true) (hio : c.inOrder = true)
+include hv hit hio
+
+theorem reach_iter (as : List Action) (s : State) (hnr : NoReset as) (hr : run c (init c) as = some s)
+    (hd : ¬ died s) : InvI c s := by
+  rcases run_invI c as (init c) s hv.2 hit hio hnr (Or.inl (init_invI c hv hit hio)) hr with h | h
+  · exact h
+  · exact absurd h hd
+
+/-- The observations answering tasks are the expected ones for a prefix of the reference stream. -/
+theorem taskObs_eq_iter (as : List Action) (s : State) (hnr : NoReset as) (hr : run c (init c) as = some s)
+    (hd : ¬ died s) (ha : Obs.assertion ∉ s.obs) :
+    ∃ D : List Item, D <+: Ref.interleave c.shards ∧ taskObs s.obs = D.map expected ∧
+      (Obs.stop ∈ s.obs → D = Ref.interleave c.shards) := by
+  obtain ⟨D, ho, hp, hf⟩ := InvI_obs c s hv (reach_iter c hv hit hio as s hnr hr hd)
+  exact ⟨D, hp, ObsRel_noassert _ _ ho (fun h => ha (mem_taskObs _ _ h)), hf⟩
+
+end Iter
+
+/-! ## `snapshot_step` bookkeeping along runs -/
+
+theorem init_gs (c : Cfg) (hv : c.Valid) : GS c (init c) := by
+  unfold init resetTail
+  generalize hs0 : ({ resetHead c _ with mainSnaps := [], lastW := c.W - 1, snap := _ } : State) = s0
+  have hc := prime_sameCore c (c.P * c.W) s0
+  have e2 : s0.obs = [] := by subst hs0; rfl
+  have e3 : s0.numYielded = 0 := by subst hs0; rfl
+  have e4 : s0.snap.step = 0 := by subst hs0; rfl
+  constructor
+  · rw [hc.numYielded, hc.obs, e2, e3]; rfl
+  · intro _; rw [hc.snap, e4]
+  · intro h0; rw [hc.snap, hc.numYielded, e3, e4]; exact ⟨Nat.dvd_zero _, Nat.le_refl _, by have := Nat.pos_of_ne_zero h0; omega⟩
+
+theorem run_gs_map (c : Cfg) (as : List Action) (s s' : State) (hv : c.Valid) (hm : c.iterable = false)
+    (hio : c.inOrder = true) (hnr : NoReset as) (h : (InvM c s ∧ GS c s) ∨ died s) (hr : run c s as = some s') :
+    (InvM c s' ∧ GS c s') ∨ died s' := by
+  induction as generalizing s with
+  | nil => simp only [run] at hr; cases hr; exact h
+  | cons a as ih =>
+    simp only [run] at hr
+    split at hr
+    · cases hr
+    · rename_i s1 hs1
+      refine ih s1 hnr.2 ?_ hr
+      rcases h with ⟨h1, h2⟩ | h
+      · rcases step_invM c s s1 a hv hm hio hnr.1 h1 hs1 with h3 | h3
+        · exact Or.inl ⟨h3, GS_step c s s1 a hio hnr.1 h2 h1.ph hs1⟩
+        · exact Or.inr h3
+      · exact Or.inr (died_step c s s1 a hs1 h)
+
+theorem run_gs_iter (c : Cfg) (as : List Action) (s s' : State) (hv : c.shards.length = c.W)
+    (hit : c.iterable = true) (hio : c.inOrder = true) (hnr : NoReset as) (h : (InvI c s ∧ GS c s) ∨ died s)
+    (hr : run c s as = some s') : (InvI c s' ∧ GS c s') ∨ died s' := by
+  induction as generalizing s with
+  | nil => simp only [run] at hr; cases hr; exact h
+  | cons a as ih =>
+    simp only [run] at hr
+    split at hr
+    · cases hr
+    · rename_i s1 hs1
+      refine ih s1 hnr.2 ?_ hr
+      rcases h with ⟨h1, h2⟩ | h
+      · rcases step_invI c s s1 a hv hit hio hnr.1 h1 hs1 with h3 | h3
+        · exact Or.inl ⟨h3, GS_step c s s1 a hio hnr.1 h2 h1.ph hs1⟩
+        · exact Or.inr h3
+      · exact Or.inr (died_step c s s1 a hs1 h)
 
 end TDV.MP
